@@ -1203,6 +1203,11 @@ func (t *TaintEngine) paramFuncTargets(fn *ssa.Function, pa *ssa.Parameter) (tar
 					return nil, nil, false
 				}
 				if t.P.funcSet[origin(f)] {
+					// the literal's captured variables are not available at the call through the
+					// parameter: its effects must not go through them
+					if len(v.Bindings) > 0 && t.sumUsesFreeVars(origin(f)) {
+						return nil, nil, false
+					}
 					targets, bound = append(targets, origin(f)), append(bound, false)
 				} else if strings.Contains(f.Synthetic, "bound method") && f.Object() != nil {
 					mobj := f.Object().(*types.Func)
@@ -1227,6 +1232,30 @@ func (t *TaintEngine) paramFuncTargets(fn *ssa.Function, pa *ssa.Parameter) (tar
 	return targets, bound, true
 }
 
+// sumUsesFreeVars: the summary of f has a write, escape, release or result that
+// goes through one of f's captured variables.
+func (t *TaintEngine) sumUsesFreeVars(f *ssa.Function) bool {
+	sum := t.Sum[f]
+	if sum == nil {
+		return false
+	}
+	for _, m := range []map[string][]TSite{sum.Writes, sum.Escapes} {
+		for l := range m {
+			if strings.HasPrefix(l, "fv") {
+				return true
+			}
+		}
+	}
+	for _, ls := range sum.Ret {
+		for l := range ls {
+			if strings.HasPrefix(l, "fv") {
+				return true
+			}
+		}
+	}
+	return false
+}
+
 // funcValueOrigins: the function literals / functions / forwarded parameters a
 // function-typed value may be: looks through conversions, phis, local variable
 // cells (every value ever stored) and variables captured from the enclosing function.
@@ -1243,6 +1272,33 @@ func funcValueOrigins(v ssa.Value, depth int) ([]ssa.Value, bool) {
 		}
 	case *ssa.ChangeType:
 		return funcValueOrigins(x.X, depth+1)
+	case *ssa.Call:
+		// a function value built by a factory: every return of the (statically known, single-result) callee
+		cal := staticCallee(x)
+		if cal == nil || len(cal.Blocks) == 0 || cal.Signature.Results().Len() != 1 {
+			return nil, false
+		}
+		var out []ssa.Value
+		for _, b := range cal.Blocks {
+			if len(b.Instrs) == 0 {
+				continue
+			}
+			ret, ok := b.Instrs[len(b.Instrs)-1].(*ssa.Return)
+			if !ok || len(ret.Results) != 1 {
+				continue
+			}
+			o, ok := funcValueOrigins(ret.Results[0], depth+1)
+			if !ok {
+				return nil, false
+			}
+			for _, v := range o {
+				if _, isParam := v.(*ssa.Parameter); isParam {
+					return nil, false // a factory that forwards its own parameter: not followed
+				}
+			}
+			out = append(out, o...)
+		}
+		return out, len(out) > 0
 	case *ssa.Phi:
 		var out []ssa.Value
 		for _, ed := range x.Edges {
